@@ -3,7 +3,7 @@ CONSTANTS
   Emit = TRUE
   NsPrefixes = {"p", "q", ""}
   Uris = {"u1", "u2"}
-  Forms = {"p|e", "q|e", "*|e", "|e", "e", "[p|a]", "z|e"}
+  Forms = {"p|e", "q|e", "*|e", "|e", "e", "[p|a]", "z|e", ":not(p|e)", ":not(e)"}
   MaxNs = 2
   MaxSels = 2
   MaxHist = 6
